@@ -11,9 +11,9 @@
 
    NOT proved (validated by (C) on every generated case instead): the winding-number clause for all points -- that the
    corner insertion of ExecuteInternal and the splitting / rejoining of TidyEdges produce rings whose summed winding number
-   is the input's inside the rectangle.  Also not proved: the one-unit accuracy of the division in GetSegmentIntersectPt
-   (the second alternative of C08_isect_on_rect_partial); the check reports the cases in which the truncated intersection
-   point is off its side (key clip.ip-off-side).
+   is the input's inside the rectangle.  The one-unit accuracy of computed intersection points is proved for |coordinates| <= 2^25
+   (C08_isect_on_rect) and validated beyond; "within one unit" is all that holds: the check reports the cases in which the
+   truncated intersection point is one unit off its side and the winding clause fails because of it (key clip.ip-off-side).
 
    Vocabulary (proofs/RectClipLeaf.v, proofs/RectLines.v, proofs/RectClipCheck.v):
      on_side r p loc      p lies on the closed side of r that the code loc names (Left: x = left /\ top <= y <= bottom, ...)
@@ -27,7 +27,7 @@
 From Clip Require Import base.Geom base.FloatModel base.Winding base.Dist base.CSem gen.Gen_core gen.Gen_rect
   model.RectLeaf model.RectLines model.RectClip model.RectClipCheck.
 From Clip Require Import proofs.RectLines proofs.RectClip proofs.RectClipCheck.
-From Clip Require proofs.RectClipLeaf proofs.RectFloat.
+From Clip Require proofs.RectClipLeaf proofs.RectClipIsect proofs.RectFloat.
 From Coq Require Import ZArith List Bool.
 Local Open Scope Z_scope.
 
@@ -78,8 +78,8 @@ Print Assumptions C08_intersection_names_side.
    the bounding box), or the segments cross properly and the point is the one GetSegmentIntersectPt computes -- as it is (the
    code as of this writing) or projected onto the side (project_on_side: perpendicular coordinate := the side's, the other
    clamped to the side's extent; the repair proposed in triage/C08-ip-onto-side.patch).  The proof accepts either form.
-   PARTIAL: that the computed point q0 is within one unit of the side is validated (leaf correspondence + CHK), not proved. *)
-Theorem C08_isect_on_rect_partial :
+   (How far q0 is from the side: next theorem.) *)
+Theorem C08_isect_on_rect_cases :
   forall p1 p2 p3 p4 ip q,
   RectFloat.small_pt p1 -> RectFloat.small_pt p2 -> RectFloat.small_pt p3 -> RectFloat.small_pt p4 ->
   RectClipLeaf.axis_side p3 p4 ->
@@ -89,7 +89,23 @@ Theorem C08_isect_on_rect_partial :
       /\ exists q0, GetSegmentIntersectPt_lo p1 p2 p3 p4 ip = (true, q0)
                     /\ (q = q0 \/ q = RectClipLeaf.project_on_side p3 p4 q0)).
 Proof. exact RectClipLeaf.gsi_on_rect_partial. Qed.
-Print Assumptions C08_isect_on_rect_partial.
+Print Assumptions C08_isect_on_rect_cases.
+
+(* ... and in every case the point is within ONE unit of the side: its perpendicular coordinate is within 1 of the side's line and
+   the other one within [min - 1, max + 1] of the side's extent.  Uses the accuracy theorem for GetSegmentIntersectPt proved for
+   C18 (proofs/Core_isect_acc.v, binary64 error analysis with Flocq: within 1 + 2^-20 per axis of the exact crossing, whose
+   perpendicular coordinate is an integer here).  The bound 2^25 is the one under which det, the numerator of t and the four
+   cross products are exact; beyond it the clause is validated only (and does fail: check key clip.ip-off-side shows points
+   one unit off at all magnitudes, never more). *)
+Theorem C08_isect_on_rect :
+  forall p1 p2 p3 p4 ip q,
+  RectFloat.small_pt p1 -> RectFloat.small_pt p2 -> RectFloat.small_pt p3 -> RectFloat.small_pt p4 ->
+  RectClipLeaf.axis_side p3 p4 ->
+  GetSegmentIntersection p1 p2 p3 p4 ip = (true, q) ->
+  (px p3 = px p4 -> Z.abs (px q - px p3) <= 1 /\ Z.min (py p3) (py p4) - 1 <= py q <= Z.max (py p3) (py p4) + 1)
+  /\ (py p3 = py p4 -> Z.abs (py q - py p3) <= 1 /\ Z.min (px p3) (px p4) - 1 <= px q <= Z.max (px p3) (px p4) + 1).
+Proof. exact RectClipIsect.gsi_on_rect. Qed.
+Print Assumptions C08_isect_on_rect.
 
 (* ================================================================ (B) the model of RectClip64 *)
 
@@ -200,7 +216,8 @@ Print Assumptions C08_sample_check_sound.
 (* ================================================================ the whole, as far as it is proved *)
 (* PARTIAL: everything the theorems above give about one call RectClip(r, {path}) of the model.  Missing with respect to the
    property: the winding-number / orientation / nothing-outside clauses for all points (validated at sample points by the verified
-   checker above on every generated case), and the within-one-unit clauses for the points tagged SI (validated; refuted for SX). *)
+   checker above on every generated case), and the within-one-unit clauses for the points tagged SI beyond |coordinates| 2^25
+   (proved up to there by C08_isect_on_rect + C08_intersection_names_side, validated beyond; refuted for SX). *)
 Theorem C08_rectclip_partial :
   forall r path out,
   rect_is_empty r = false -> rect_i64 r -> (forall v, In v path -> pt_i64 v) ->
